@@ -6,6 +6,7 @@ import (
 	"bytes"
 	"errors"
 	"io"
+	"runtime"
 
 	zz "github.com/cloudwego/hertz/internal/zzverif"
 	errs "github.com/cloudwego/hertz/pkg/common/errors"
@@ -33,6 +34,8 @@ var zzRespTemplates = []zzRespTmpl{
 	// delimited by the end of the connection without saying so: the connection must still be
 	// reported as not reusable
 	{"HTTP/1.1 200 OK\r\nX-A: V\r\n\r\nBBB", 200, true, true, true},
+	// obs-folded header value (two continuation lines)
+	{"HTTP/1.1 200 OK\r\nX-N: first\r\n second\r\n\tthird\r\nContent-Length: 3\r\nX-A: V\r\n\r\nBBB", 200, true, false, true},
 }
 
 const zzSecondResp = "HTTP/1.1 202 Accepted\r\nContent-Length: 1\r\n\r\nk"
@@ -232,4 +235,48 @@ func ZZ_C03_CLI() {
 	zz.Cover("reached-end", true)
 	zz.Cover("accepted", v.err == nil)
 	zz.Cover("rejected", v.err != nil)
+}
+
+// ZZ_C04_POOL: the chunked body writer is pooled; the run-time hands a collected writer back to
+// the pool through its finalizer (release). A writer that served one response and went through
+// that path must serve the next response like a fresh one: status line and header block first,
+// then the chunks, then the terminating chunk.
+func ZZ_C04_POOL() {
+	b1 := zz.Bytes("body1", 2)
+	b2 := zz.Bytes("body2", 2)
+	firstWrote := zz.Choose("firstWroteData", 2) == 1
+	nc := zz.NewNetConn(nil)
+	conn := standard.ZZNewConn(nc)
+	var r1 protocol.Response
+	r1.Header.SetNoDefaultDate(true)
+	w1 := NewChunkedBodyWriter(&r1, conn)
+	if firstWrote {
+		w1.Write(b1) //nolint:errcheck
+	}
+	w1.Finalize() //nolint:errcheck
+	conn.Flush()  //nolint:errcheck
+	first := len(nc.Out)
+	// what the run-time does once the writer is unreachable: clear the finalizer, then run it
+	runtime.SetFinalizer(w1.(*chunkedBodyWriter), nil)
+	w1.(*chunkedBodyWriter).release()
+	var r2 protocol.Response
+	r2.Header.SetNoDefaultDate(true)
+	r2.SetStatusCode(201)
+	w2 := NewChunkedBodyWriter(&r2, conn)
+	w2.Write(b2)  //nolint:errcheck
+	w2.Finalize() //nolint:errcheck
+	conn.Flush()  //nolint:errcheck
+	out := nc.Out
+	zz.Cover("reached-assert", true)
+	zz.Cover("writer-reused", w1.(*chunkedBodyWriter) == w2.(*chunkedBodyWriter))
+	zz.Assert("first-response-starts-with-a-status-line", bytes.HasPrefix(out, []byte("HTTP/1.1 200 OK\r\n")))
+	zz.Assert("first-response-ends-with-the-last-chunk", first >= 5 && string(out[first-5:first]) == "0\r\n\r\n")
+	second := out[first:]
+	zz.Assert("second-response-starts-with-its-status-line", bytes.HasPrefix(second, []byte("HTTP/1.1 201 Created\r\n")))
+	he := bytes.Index(second, []byte("\r\n\r\n"))
+	zz.Assert("second-response-has-a-header-block", he > 0)
+	if he > 0 {
+		want := append(append([]byte("2\r\n"), b2...), "\r\n0\r\n\r\n"...)
+		zz.Assert("second-body-is-exactly-its-chunk-and-the-terminator", bytes.Equal(second[he+4:], want))
+	}
 }
